@@ -105,6 +105,8 @@ pub struct IrqObserver {
     prev_er: [u32; 8],
     pub entries: Vec<u32>,
     pub trap_entries: u32,
+    /// a TRAPA went through an entry that leads to no handler (all ones): the run ends in the fetch error that follows
+    pub trapped_nowhere: bool,
     pub irq_entries: u32,
     pub rte_matched: u32,
     pub rte_crafted: u32,
@@ -138,6 +140,7 @@ impl IrqObserver {
             prev_er: [0; 8],
             entries: vec![0; nhandlers],
             trap_entries: 0,
+            trapped_nowhere: false,
             irq_entries: 0,
             rte_matched: 0,
             rte_crafted: 0,
@@ -356,6 +359,18 @@ impl Observer for IrqObserver {
                 let hidx = g.handlers.iter().position(|x| x.addr == h.addr).unwrap();
                 self.entries[hidx] += 1;
                 self.check_entry(cpu, g, &prev, row, 8 + n, prev.pc + 2, h.addr, hidx, matches!(h.kind, HandlerKind::Empty))?;
+            } else if mode == Mode::Frames && Self::rd32(cpu, 4 * (8 + n)) == 0xffff_ffff && row.pc == 0x00ff_ffff {
+                // the entry leads nowhere: frame, SP and CCR are judged all the same; the fetch that follows fails
+                let fa = prev.sp.wrapping_sub(4);
+                let f = Self::rd32(cpu, fa);
+                let want = ((prev.ccr as u32) << 24) | (prev.pc.wrapping_add(2) & 0x00ff_ffff);
+                if f != want || row.sp != fa {
+                    return Err(fail(mode, "frame", format!("iteration {}: TRAPA #{}: frame at {:08x} holds {:08x} (SP {:08x}), expected CCR|PC = {:08x} at SP-4", prev.iter, n, fa, f, row.sp, want)));
+                }
+                if (row.ccr | 0x40) != (prev.ccr | 0x80 | 0x40) {
+                    return Err(fail(mode, "entry-ccr", format!("iteration {}: TRAPA #{}: CCR {:02x} -> {:02x}; only I (and UI) may change", prev.iter, n, prev.ccr, row.ccr)));
+                }
+                self.trapped_nowhere = true;
             } else if mode == Mode::Frames {
                 return Err(fail(mode, "trap-vector", format!("iteration {}: TRAPA #{} at {:06x} went to {:06x}, which is not the handler installed for vector {}", prev.iter, n, prev.pc, row.pc, 8 + n)));
             }
@@ -498,6 +513,12 @@ impl Observer for IrqObserver {
                 }
             }
         }
+        if self.trapped_nowhere {
+            return match outcome {
+                Outcome::Err(e) if e.contains("Invalid instruction fetch address [0xfffffe]") || e.contains("Invalid instruction fetch address [0xffffff]") => Ok(()),
+                other => Err(fail(mode, "trap-vector", format!("TRAPA went through an all-ones vector entry (PC = ffffff) but the run ended with {:?}", other))),
+            };
+        }
         match outcome {
             Outcome::Ok => {}
             Outcome::Abort(a) if a == "step-cap" => {
@@ -590,6 +611,7 @@ fn block_iters(b: &Block, sub_delay: u16) -> u64 {
         Block::Tick => 5,
         Block::Filler(_) => 4,
         Block::EdgeExec { .. } => 6,
+        Block::TrapNowhere(_) => 8,
         Block::Heavy => 2,
         Block::SetVector { .. } => 4,
         Block::LoadEr5(_) => 1,
@@ -609,10 +631,61 @@ fn handler_cost(k: &HandlerKind) -> u64 {
         HandlerKind::Count => 7,
         HandlerKind::Nested(_) => 20,
         HandlerKind::Unmask(n) | HandlerKind::Slow(n) => 16 + 2 * *n as u64,
+        HandlerKind::Recurse(..) => 12,
     }
 }
 
-pub fn generate(rng: &mut Rng, tier: Tier, frames: bool) -> Scn {
+/// Deep nesting: every handler unmasks at once and a burst larger than 256 is outstanding, so more than 255 exception
+/// frames are on the stack at the same time.
+fn gen_deep(rng: &mut Rng) -> Scn {
+    if rng.chance(1, 2) {
+        // the other way to get there (the only one without any RTE on the way down): a trap handler that traps again
+        let n = rng.range(1, 3) as u8;
+        let depth = rng.range(257, 400) as u16;
+        let other = rng.range(12, 63) as u8;
+        let handlers = vec![Handler { vector: 8 + n, kind: HandlerKind::Recurse(n, depth), at_zero: false }, Handler { vector: other, kind: HandlerKind::Count, at_zero: false }];
+        let blocks = vec![Block::SetCcr(rng.u8()), Block::Trapa(n), Block::Arith(rng.u8()), Block::Trapa(n), Block::SetCcr(0x00), Block::Delay(24)];
+        let guest = GuestSpec { blocks, handlers, code_dram: rng.chance(1, 3), stack_dram: rng.chance(1, 2), data_dram: rng.chance(1, 3), vec_top: rng.u8(), sub_delay: 1, init_ccr: None, stack_off: 0, exit_style: 0 };
+        // a request that arrives somewhere inside the recursion (I is set there) is delivered after it
+        let events = vec![Event { trig: Trigger::Iter(rng.below(3000)), act: Action::Irq(other) }];
+        let cfg = SysCfg { wait_start: false, clock: gen_clock_model(rng), clock_seed: rng.next_u64(), step_cap: 400_000, print_msgs: false, print_opcode: false };
+        return Scn { guest, events, cfg, timer_irqs: false };
+    }
+    let nvec = rng.range(1, 3) as usize;
+    let mut pool: Vec<u8> = (1..=63u8).filter(|v| !(9..=11).contains(v)).collect();
+    rng.shuffle(&mut pool);
+    let handlers: Vec<Handler> = pool.iter().take(nvec).map(|v| Handler { vector: *v, kind: HandlerKind::Unmask(rng.range(1, 3) as u16), at_zero: false }).collect();
+    let vectors: Vec<u8> = handlers.iter().map(|h| h.vector).collect();
+    let blocks = vec![Block::SetCcr(0x80 | (rng.u8() & 0x3f)), Block::Delay(4), Block::Arith(rng.u8()), Block::SetCcr(0x00), Block::Delay(24)];
+    let stack_dram = rng.chance(1, 2);
+    let guest = GuestSpec { blocks, handlers, code_dram: rng.chance(1, 3), stack_dram, data_dram: rng.chance(1, 3), vec_top: rng.u8(), sub_delay: 1, init_ccr: None, stack_off: 0, exit_style: 0 };
+    // 12 bytes per level (frame, saved ER3, and the ER0 the unmasking idiom still holds when the next request is
+    // accepted): 3328 bytes of stack in on-chip RAM, 4096 in DRAM
+    let n = rng.range(258, if stack_dram { 330 } else { 268 }) as usize;
+    let events = vec![Event { trig: Trigger::AtBlock { block: 1, nth: 0 }, act: Action::Burst((0..n).map(|_| *rng.pick(&vectors)).collect()) }];
+    let cfg = SysCfg { wait_start: false, clock: gen_clock_model(rng), clock_seed: rng.next_u64(), step_cap: 400_000, print_msgs: false, print_opcode: false };
+    Scn { guest, events, cfg, timer_irqs: false }
+}
+
+/// More than 2^20 requests outstanding at once (one vector, an empty handler).
+fn gen_giant_flood(rng: &mut Rng) -> Scn {
+    let v = rng.range(12, 63) as u8;
+    let blocks = vec![Block::SetCcr(0x80), Block::Delay(3), Block::SetCcr(0x00), Block::Delay(24)];
+    let guest = GuestSpec { blocks, handlers: vec![Handler { vector: v, kind: HandlerKind::Empty, at_zero: false }], code_dram: false, stack_dram: false, data_dram: false, vec_top: 0, sub_delay: 1, init_ccr: None, stack_off: 0, exit_style: 0 };
+    let n = (1usize << 20) + rng.range(1, 300) as usize;
+    let events = vec![Event { trig: Trigger::AtBlock { block: 1, nth: 0 }, act: Action::Burst(vec![v; n]) }];
+    let cfg = SysCfg { wait_start: false, clock: ClockModel::Fast, clock_seed: rng.next_u64(), step_cap: 8_000_000, print_msgs: false, print_opcode: false };
+    Scn { guest, events, cfg, timer_irqs: false }
+}
+
+pub fn generate(rng: &mut Rng, tier: Tier, frames: bool, index: u64) -> Scn {
+    // one fixed run index per 400 000 holds the giant flood (C10 only: it is there in every quick run, whatever the seed)
+    if !frames && index % 400_000 == 4_242 {
+        return gen_giant_flood(rng);
+    }
+    if rng.chance(1, 60) {
+        return gen_deep(rng);
+    }
     let use_traps = rng.chance(if frames { 2 } else { 1 }, 3);
     let nvec = rng.range(1, 7) as usize;
     let timer_irqs = !frames && rng.chance(1, 8);
@@ -742,6 +815,10 @@ pub fn generate(rng: &mut Rng, tier: Tier, frames: bool) -> Scn {
     }
     blocks.push(Block::SetCcr(0x00));
     blocks.push(Block::Delay(24));
+    if frames && rng.chance(1, 40) {
+        // the program's last act is a TRAPA through an entry that is all ones
+        blocks.push(Block::TrapNowhere(rng.range(1, 3) as u8));
+    }
     let guest = GuestSpec {
         blocks,
         handlers,
@@ -1019,7 +1096,7 @@ impl Property for C10 {
     type Scn = Scn;
     const ID: &'static str = "C10";
     fn generate(rng: &mut Rng, tier: Tier, _i: u64) -> Scn {
-        generate(rng, tier, false)
+        generate(rng, tier, false, _i)
     }
     fn execute(scn: &Scn, stats: &mut Stats) -> Verdict {
         execute(scn, stats, Mode::Delivery)
@@ -1037,7 +1114,7 @@ impl Property for C06 {
     type Scn = Scn;
     const ID: &'static str = "C06";
     fn generate(rng: &mut Rng, tier: Tier, _i: u64) -> Scn {
-        generate(rng, tier, true)
+        generate(rng, tier, true, _i)
     }
     fn execute(scn: &Scn, stats: &mut Stats) -> Verdict {
         execute(scn, stats, Mode::Frames)
